@@ -199,6 +199,7 @@ type Check struct {
 	dataObl      []map[string]any
 	dataFactDone map[string]bool
 	crossLight   bool
+	coverJobs    []job
 	unmerged     bool
 	replayExtra  func(r *Result) (map[string]any, bool)
 	flowObl      []map[string]any
@@ -244,12 +245,19 @@ func (ck *Check) verifyFunctions(filter func(c *Contract) bool) {
 			x.noMergeAll = true
 			x.onlyProp = ck.Prop
 		}
+		if ck.Tier == "thorough" {
+			x.covers = true
+			x.coverProp = ck.Prop
+		}
 		if err := x.Run(); err != nil {
 			ck.outOfSub = append(ck.outOfSub, fmt.Sprintf("%s: %v", n, err))
 			continue
 		}
 		x.lemmaText = ck.lemmaTexts(x, c.Lemmas)
 		ck.execs = append(ck.execs, x)
+		for _, vc := range x.coverVCs {
+			ck.coverJobs = append(ck.coverJobs, job{x, vc})
+		}
 		for _, vc := range x.vcs {
 			if vc.Prop != "" && vc.Prop != ck.Prop && !alsoTag(ck.Prop, vc.Prop) {
 				continue
@@ -279,6 +287,65 @@ func (ck *Check) discharge(jobs []job) {
 	}
 	wg.Wait()
 	ck.results = append(ck.results, res...)
+}
+
+// dischargeCovers runs the vacuity covers (thorough tier): a cover is a set of
+// assumptions that must not be refutable. A group of covers with the same name
+// (one per path) is vacuous if the solver refutes every one of them.
+func (ck *Check) dischargeCovers() {
+	if len(ck.coverJobs) == 0 {
+		return
+	}
+	work := filepath.Join(ck.Verif, ".work", fmt.Sprint(os.Getpid())+"c")
+	os.MkdirAll(work, 0o755)
+	defer os.RemoveAll(work)
+	type cres struct {
+		name string
+		st   string
+	}
+	res := make([]cres, len(ck.coverJobs))
+	var wg sync.WaitGroup
+	sem := make(chan struct{}, runtime.NumCPU())
+	for i := range ck.coverJobs {
+		wg.Add(1)
+		sem <- struct{}{}
+		go func(i int) {
+			defer wg.Done()
+			defer func() { <-sem }()
+			j := ck.coverJobs[i]
+			q := j.x.buildQuery(j.vc, j.x.lemmaFacts(j.vc), nil)
+			st, _, _ := runSolver(solvers[0], work, fmt.Sprintf("cover%05d", i), q, 3)
+			res[i] = cres{j.vc.Name, st}
+		}(i)
+	}
+	wg.Wait()
+	groups := map[string][]string{}
+	for _, r := range res {
+		groups[r.name] = append(groups[r.name], r.st)
+	}
+	var vacuous []string
+	satisfiable := 0
+	for _, n := range sortedKeys(groups) {
+		all := true
+		for _, st := range groups[n] {
+			if st != "unsat" {
+				all = false
+			}
+			if st == "sat" {
+				satisfiable++
+			}
+		}
+		if all {
+			vacuous = append(vacuous, n)
+			ck.engineErr = append(ck.engineErr, "vacuity: "+n+" is refutable on every path (contradictory precondition or unreachable premise)")
+		}
+	}
+	if ck.extraCov == nil {
+		ck.extraCov = map[string]any{}
+	}
+	ck.extraCov["vacuity_covers"] = map[string]any{"covers": len(res), "groups": len(groups), "answered_sat": satisfiable, "vacuous_groups": vacuous,
+		"meaning": "per function: its preconditions; per property clause of the form A ==> B: A together with some path condition; a group is vacuous only if z3 refutes it on every path (3 s each; unknown counts as not refuted)"}
+	ck.coverJobs = nil
 }
 
 func writeJSON(path string, v any) error {
